@@ -87,6 +87,11 @@ type OrderedMerge struct{}
 // Name implements moss.MergeOperator.
 func (OrderedMerge) Name() string { return "verif-ordered" }
 
+// MergeClear is an operand that folds to the empty value: the key stays
+// present with a zero-length, non-nil value (a merge *result* of length zero
+// is not a deletion).
+var MergeClear = []byte("\x00CLEAR\x00")
+
 // MergePoison is an operand that makes FullMerge fail (return false) while
 // MergeFailArmed is non-zero: the application's operator refusing to merge
 // is a failure moss has to survive (the merger reports it through OnError
@@ -120,6 +125,9 @@ func (OrderedMerge) PartialMerge(key, l, r []byte) ([]byte, bool) { return nil, 
 // max / first-write-wins operator would): a copying Get of such a key must
 // still return bytes that survive closing everything.
 func MergeFold(key, existing, operand []byte) []byte {
+	if bytes.Equal(operand, MergeClear) {
+		return []byte{} // present, with an empty value - not absent
+	}
 	if len(operand) == 0 && existing != nil {
 		return existing
 	}
